@@ -422,6 +422,9 @@ func (g *igen) directedArray(m map[string]any, depth int) any {
 	}
 	if _, ok := m["uniqueItems"]; ok && n >= 2 && r.IntN(3) == 0 {
 		out[n-1] = Clone(out[0]) // plant a duplicate
+		if r.IntN(2) == 0 {
+			out[n-1] = Respell(r, out[n-1]) // equal but not identical: 0 / -0 / 0.0, 1 / 1.0 / 1e0 (also inside containers)
+		}
 	}
 	return out
 }
@@ -600,4 +603,33 @@ func (g *igen) deepPrefixes(m map[string]any, acc *[][]any, depth int) {
 		}
 		g.deepPrefixes(sm, acc, depth+1)
 	}
+}
+
+// Respell rewrites numbers inside v in another spelling of the same value (exactly representable in float64).
+func Respell(r *rand.Rand, v any) any {
+	switch x := v.(type) {
+	case json.Number:
+		rt, ok := new(big.Rat).SetString(string(x))
+		if !ok {
+			return x
+		}
+		if rt.Sign() == 0 {
+			return json.Number(Pick(r, []string{"0", "-0", "0.0", "-0.0", "0e0", "-0e1"}))
+		}
+		if rt.IsInt() && rt.Num().BitLen() < 50 {
+			return json.Number(rt.Num().String() + Pick(r, []string{".0", "e0", ".00", "0e-1"}))
+		}
+		return x
+	case []any:
+		for i := range x {
+			x[i] = Respell(r, x[i])
+		}
+		return x
+	case map[string]any:
+		for _, k := range sortedKeysAny(x) {
+			x[k] = Respell(r, x[k])
+		}
+		return x
+	}
+	return v
 }
